@@ -91,6 +91,22 @@ def other_format(rng, icao):
     b = rand_frame(rng, rng.choice([0, 4, 5, 11, 11, 16, 19, 20, 21, 24])); put(b, 8, 24, icao)
     return b
 
+def busy_sky(rng, n):
+    """more than a thousand aircraft at once: every one heard once (quiet operations), a third heard again, then newcomers one after
+    another; the whole map is compared at the end only"""
+    ops = ["T reset 39.0 -77.0 500"]
+    base = rng.bits(24) & 0xFFF000
+    addrs = []
+    seen = set()
+    while len(addrs) < n:
+        a = (base + 7 * len(addrs) * (1 + rng.below(3)) + rng.below(5)) & 0xFFFFFF
+        if a not in seen: seen.add(a); addrs.append(a)
+    for i, a in enumerate(addrs):
+        ops.append(hexop("T actq", adsb(a, me_ident(4, 0, "B%05d" % (i % 100000)), df=18 if i % 9 == 0 else 17, cf=(a >> 3) % 8 if i % 9 == 0 else None)))
+        if i % 3 == 0: ops.append(hexop("T actq", adsb(a, me_velocity(1, 0, 100, 1, 200, 0, 10))))
+    ops.append("T dump")
+    return ops
+
 def history(rng, n_ops, n_planes=4, with_time=True, rx=None, rng_range=None, addrs=None):
     rx = rx or rng.choice([(39.0, -77.0), (52.3, 4.8), (-33.9, 151.2), (69.7, 19.0), (0.5, 179.5), (64.1, -21.9)])
     rng_range = rng_range or rng.choice([500, 500, 300, 150, 1000, 800, 1500])
